@@ -212,6 +212,21 @@ func blastMain(args mon.Args, prop string) {
 					time.Sleep(2 * time.Millisecond)
 				}
 			}
+			if prop != "C12" {
+				// the shortest datagrams, on every port: 0..8 octets of zeros, ones and a valid prefix
+				e := exps[0]
+				valid := tr.Data(e, 1<<30, false)
+				for l := 0; l <= 8; l++ {
+					id++
+					feed(e, make([]byte, l), "tiny zeros")
+					id++
+					feed(e, bytes.Repeat([]byte{0xff}, l), "tiny ones")
+					if l <= len(valid) {
+						id++
+						feed(e, valid[:l], "tiny valid prefix")
+					}
+				}
+			}
 			n := run.Pick(600, 6000)
 			for k := 0; k < n; k++ {
 				e := exps[g.Intn(len(exps))]
